@@ -28,6 +28,7 @@ def check(run):
     isolang(run, p)
     precedence(run, p)
     declared(run, p)
+    titles(run, p)
     from .common import gotcha_rule
     n = gotcha_rule(run, 'C16-ACCUM', p, ['tdda.serial.pandasio', 'tdda.serial.csvw', 'tdda.serial.reader', 'tdda.serial.base'],
                     'what several columns contribute to one read_csv argument is accumulated, not overwritten or dropped: no '
@@ -283,3 +284,28 @@ def declared(run, p):
                                                                        'also depends on the option(s) %s: with that option off nothing is protected' % bad),
                fn=f, node=x)
     run.floor('C16-DECLARED', n, 1)
+
+
+def titles(run, p):
+    run.rule('C16-TITLES', 'a column\'s titles are kept as the metadata lists them: every store into field.altnames is the titles value '
+                           'itself or that value wrapped in a one-element list - never a filtered copy (the reader decides from '
+                           'altnames whether to pass names= to read_csv; dropping a title equal to the name loses the column names '
+                           'of a header-less file)')
+    f = p.method('CSVWMetadata', 'get_fields_metadata')
+    src = None
+    for s in p.own_nodes(f):
+        if isinstance(s, ast.Assign) and isinstance(s.value, ast.Call) and norm(s.value.func).endswith('get_val') and \
+                any(isinstance(a, ast.Constant) and a.value == 'titles' for a in s.value.args) and isinstance(s.targets[0], ast.Name):
+            src = s.targets[0].id
+    if src is None:
+        raise AnalysisError('get_fields_metadata no longer reads the titles key')
+    n = 0
+    for s in p.own_nodes(f):
+        if isinstance(s, ast.Assign) and any(isinstance(t, ast.Attribute) and t.attr == 'altnames' for t in s.targets):
+            n += 1
+            v = s.value
+            ok = (isinstance(v, ast.Name) and v.id == src) or \
+                (isinstance(v, ast.List) and len(v.elts) == 1 and isinstance(v.elts[0], ast.Name) and v.elts[0].id == src)
+            run.ob('C16-TITLES', '%s::%s::altnames=%s' % (f.rel, f.short, norm(v)[:30]), ok,
+                   'altnames = %s %s' % (norm(v)[:50], 'keeps the titles as given' if ok else 'is not the titles as given'), fn=f, node=s)
+    run.floor('C16-TITLES', n, 3)
